@@ -87,16 +87,20 @@ inline bool expandFormat(State &S, const CallBase *CB, const std::string &fmt, u
       if (star) {
         precV = CB->getArgOperand(ai);
         Val pv = getVal(S, CB->getArgOperand(ai++)); tighten(S, pv);
-        if (pv.k != Val::INT || pv.r.isFullSet() || pv.r.getSignedMin().isNegative()) { why = "%.*s with unbounded/negative precision"; return false; }
-        plo = pv.r.getSignedMin().getSExtValue(); phi = pv.r.getSignedMax().getSExtValue();
+        if (pv.k != Val::INT) { why = "%.*s with non-integer precision"; return false; }
+        if (pv.r.isFullSet() || pv.r.getSignedMin().isNegative()) { plo = 0; phi = (i128)1 << 31; }    // negative precision = no precision
+        else { plo = pv.r.getSignedMin().getSExtValue(); phi = pv.r.getSignedMax().getSExtValue(); }
       }
       Val sv = getVal(S, CB->getArgOperand(ai++));
       if (sv.k != Val::PTR || sv.reg < 0) { why = "%s of an untracked pointer"; return false; }
       i128 slo, shi; absStrlen(S, sv, slo, shi);
       i128 lo = slo, hi = shi;
       if (star) { lo = std::min(slo, plo); hi = shi < 0 ? phi : std::min(shi, phi); if (lo > hi) lo = hi; if (slo >= phi) lo = hi = phi; else if (shi >= 0 && shi <= plo) { lo = slo; hi = shi; } }
-      if (hi < 0) { why = "%s of a string of unbounded length"; return false; }
-      if (hi - lo > 600) { why = "%s length range too wide"; return false; }
+      if (hi < 0 || hi - lo > 600) {
+        // a component of practically unbounded length: the result length is unbounded as well
+        why = "WIDE";
+        return false;
+      }
       const Region &R = S.regions[sv.reg];
       i128 olo, ohi; offsetBounds(S, sv, olo, ohi);
       std::vector<FmtAlt> out;
